@@ -176,8 +176,13 @@ func initBridgeOps() {
 		}
 		// the set-up must have taken effect, otherwise the family explores nothing
 		st := n.Chain.GetFrontierMomentumStore().GetAccountStore(types.BridgeContract).Storage()
-		if ni, err := definition.GetNetworkInfoVariable(st, blNetClass, blNetChain); err != nil || len(ni.TokenPairs) != 1 {
-			return fmt.Sprintf("err:bridge set-up did not take effect (%v)", err)
+		if ni, err := definition.GetNetworkInfoVariable(st, blNetClass, blNetChain); err != nil || len(ni.TokenPairs) != 2 {
+			return fmt.Sprintf("err:bridge set-up did not take effect (%v, %d pairs)", err, func() int {
+				if ni == nil {
+					return -1
+				}
+				return len(ni.TokenPairs)
+			}())
 		}
 		li, err := definition.GetLiquidityInfo(n.Chain.GetFrontierMomentumStore().GetAccountStore(types.LiquidityContract).Storage())
 		if err != nil || len(li.TokenTuples) != 2 {
@@ -514,4 +519,46 @@ func bridgeFamilies() []family {
 			ops.Op{K: "Unwrap", A: 3, B: 0}, M, M, M, ops.Op{K: "Unwrap", A: 2, B: 1}, M)},
 	}
 	return []family{liq, br}
+}
+
+// ---------------------------------------------------------------------------------------------------------------------
+// exported for C18's bridge chain (a chain with the bridge-and-liquidity spork active and populated request lists)
+
+const (
+	BridgeNetClass = blNetClass
+	BridgeNetChain = blNetChain
+	BridgeEvmDest  = blEvmDest
+)
+
+// BridgeSetup runs the administrator prefix (Setup must have been called in this process).
+func BridgeSetup(n *vnode.Node) string { return ops.Apply(n, ops.Op{K: "BLSetup"}) }
+
+// SubmitWrap: from wraps amount units of ZNN for the destination address dest on the configured network.
+func SubmitWrap(n *vnode.Node, from types.Address, amount int64, dest string) string {
+	return blCall(n, from, types.BridgeContract, types.ZnnTokenStandard, big.NewInt(amount),
+		definition.ABIBridge.PackMethodPanic(definition.WrapTokenMethodName, blNetClass, blNetChain, dest))
+}
+
+// SubmitUnwrap: from submits the TSS-signed unwrap request (tx, log) paying amount units of ZNN to the address to.
+func SubmitUnwrap(n *vnode.Node, from types.Address, tx types.Hash, log uint32, to types.Address, amount int64) string {
+	p := &definition.UnwrapTokenParam{NetworkClass: blNetClass, ChainId: blNetChain, TransactionHash: tx, LogIndex: log,
+		ToAddress: to, TokenAddress: blTokAddr, Amount: big.NewInt(amount)}
+	return blCall(n, from, types.BridgeContract, types.ZnnTokenStandard, big.NewInt(0),
+		definition.ABIBridge.PackMethodPanic(definition.UnwrapTokenMethodName, p.NetworkClass, p.ChainId, p.TransactionHash, p.LogIndex, p.ToAddress, p.TokenAddress, p.Amount, unwrapSig(p)))
+}
+
+// SubmitRedeem / SubmitRevokeUnwrap: the follow-up calls on request (tx, log).
+func SubmitRedeem(n *vnode.Node, from types.Address, tx types.Hash, log uint32) string {
+	return blCall(n, from, types.BridgeContract, types.ZnnTokenStandard, big.NewInt(0),
+		definition.ABIBridge.PackMethodPanic(definition.RedeemUnwrapMethodName, tx, log))
+}
+func SubmitRevokeUnwrap(n *vnode.Node, tx types.Hash, log uint32) string {
+	return blCall(n, ops.Users[blAdmin].Address, types.BridgeContract, types.ZnnTokenStandard, big.NewInt(0),
+		definition.ABIBridge.PackMethodPanic(definition.RevokeUnwrapRequestMethodName, tx, log))
+}
+
+// SubmitLiquidityStake: from stakes amount units of zts (ZNN or QSR, the configured tuples) for units staking periods.
+func SubmitLiquidityStake(n *vnode.Node, from types.Address, zts types.ZenonTokenStandard, amount int64, units int) string {
+	return blCall(n, from, types.LiquidityContract, zts, big.NewInt(amount),
+		definition.ABILiquidity.PackMethodPanic(definition.LiquidityStakeMethodName, int64(units)*constants.StakeTimeUnitSec))
 }
